@@ -65,6 +65,7 @@ static rc::Gen<std::string> genNumber(bool positive) {
     using namespace vf;
     return rc::gen::exec([=]() {
         double mag = *loguniform(1e-12, 1e12);
+        { int ex = *irange(0, 29); if (ex == 0) mag = 3.1e-310; else if (ex == 1) mag = 2.5e300; else if (ex == 2) mag = 4.4e-200; }
         double v = (!positive && *irange(0, 2) == 0) ? -mag : mag;
         char b[80];
         switch (*irange(0, 5)) {
